@@ -140,6 +140,100 @@ theorem facade_lp_is_trace (le : Expect → Expect → Bool) (kind : Kind) (arms
       (LP.init kind arms none k1).run ((Bandit.init arms kind .none none k1).lpTrace le h) :=
   runHist_lp le h _ (binv_init arms kind .none none k1 hn) rfl ht
 
+/-! ### with predictions interleaved
+
+A `predict` / `predict_expectations` between training calls leaves the policy as it was, except that a
+Thompson policy remembers its last draw (`LP.norm` forgets it, C10).  So with queries anywhere in the
+history the facade's policy is still the policy run on the trace of accepted training calls, up to
+that last draw. -/
+
+def Op.isTrainingOrQuery : Op α → Bool
+  | .predict _ => true
+  | .predictExp _ => true
+  | op => op.isTraining
+
+theorem stepOp_norm_congr (s s' : LP α) (h : s.norm = s'.norm) (op : LPOp α) :
+    (s.stepOp op).norm = (s'.stepOp op).norm := by
+  have hkk : s'.kind = s.kind := by rw [← norm_kind s', ← h, norm_kind]
+  by_cases hk : s.kind = .thompson
+  · have hk' : s'.kind = .thompson := hkk.trans hk
+    have hT : s.normT = s'.normT := by rw [← Mab.norm_thompson s hk, ← Mab.norm_thompson s' hk', h]
+    have harms : s.arms = s'.arms := by rw [← normT_arms s, hT, normT_arms]
+    cases op with
+    | fit b w => simp only [LP.stepOp]; rw [← fit_norm' s b w hk, ← fit_norm' s' b w hk', hT]
+    | partialFit b => simp only [LP.stepOp]; rw [← partialFit_norm' s b hk, ← partialFit_norm' s' b hk', hT]
+    | addArm a =>
+      simp only [LP.stepOp, harms]
+      split
+      · exact h
+      · rw [← addArm_norm' s a none hk, ← addArm_norm' s' a none hk', hT]
+    | removeArm a =>
+      simp only [LP.stepOp, harms]
+      split
+      · rw [← removeArm_norm' s a hk, ← removeArm_norm' s' a hk', hT]
+      · exact h
+  · have hk' : s'.kind ≠ .thompson := by rw [hkk]; exact hk
+    rw [norm_other s hk, norm_other s' hk'] at h
+    rw [h]
+
+theorem run_norm_congr (ops : List (LPOp α)) : ∀ (s s' : LP α), s.norm = s'.norm →
+    (s.run ops).norm = (s'.run ops).norm := by
+  induction ops with
+  | nil => intro s s' h; exact h
+  | cons op ops ih =>
+    intro s s' h
+    simp only [LP.run, List.foldl_cons]
+    exact ih _ _ (stepOp_norm_congr s s' h op)
+
+/-- **C01 at the facade, queries anywhere.** -/
+theorem runHist_lp_queries (le : Expect → Expect → Bool) (h : History α) : ∀ b : Bandit α, BInv b → b.np = .none →
+    (∀ c ∈ h, c.1.isTrainingOrQuery = true) →
+    (b.runHist le h).lp.norm = (b.lp.run (b.lpTrace le h)).norm := by
+  induction h with
+  | nil => intro b _ _ _; rfl
+  | cons c t ih =>
+    intro b hi hnp ht
+    obtain ⟨op, o, g⟩ := c
+    have hop : op.isTrainingOrQuery = true := ht (op, o, g) (List.mem_cons_self ..)
+    have hi' := binv_step le b op o g hi
+    have hnp' : (b.step le op o g).1.np = .none := by rw [step_np]; exact hnp
+    have hrec := ih (b.step le op o g).1 hi' hnp' (fun c hc => ht c (List.mem_cons_of_mem _ hc))
+    simp only [Bandit.runHist, Bandit.lpTrace]
+    rw [hrec]
+    have hq : ∀ (a : PredArgs) (p : Bool), op = (if p then .predict a else .predictExp a) →
+        ((b.step le op o g).1.lp.run (Bandit.lpTrace le (b.step le op o g).1 t)).norm =
+        (b.lp.run ((match b.lpOpOf le op o g with | some l => [l] | none => []) ++
+          Bandit.lpTrace le (b.step le op o g).1 t)).norm := by
+      intro a p hp
+      have hnone : b.lpOpOf le op o g = none := by
+        unfold Bandit.lpOpOf; cases p <;> simp [hp]
+      have hstep : (b.step le op o g).1 = (b.query le a p o g).1 := by
+        cases p <;> simp [hp, Bandit.step]
+      have hn : (b.step le op o g).1.lp.norm = b.lp.norm := by
+        have := query_norm le b a p o g
+        rw [← hstep] at this
+        exact congrArg Bandit.lp this
+      rw [hnone]
+      exact run_norm_congr _ _ _ hn
+    cases op with
+    | predict a => exact hq a true rfl
+    | predictExp a => exact hq a false rfl
+    | fit a =>
+      rw [step_lp le b _ o g hi hnp rfl]
+      cases b.lpOpOf le (.fit a) o g <;> simp [LP.run]
+    | partialFit a =>
+      rw [step_lp le b _ o g hi hnp rfl]
+      cases b.lpOpOf le (.partialFit a) o g <;> simp [LP.run]
+    | removeArm a =>
+      rw [step_lp le b _ o g hi hnp rfl]
+      cases b.lpOpOf le (.removeArm a) o g <;> simp [LP.run]
+    | addArm a bz cl =>
+      have htr : (Op.addArm a bz cl).isTraining = true := by
+        cases bz <;> simp_all [Op.isTrainingOrQuery, Op.isTraining]
+      rw [step_lp le b _ o g hi hnp htr]
+      cases b.lpOpOf le (.addArm a bz cl) o g <;> simp [LP.run]
+    | warmStart w => simp [Op.isTrainingOrQuery, Op.isTraining] at hop
+
 /-! non-vacuity: first `partial_fit` (becomes a `fit`), a duplicate `add_arm` (rejected), a new arm, a
     `partial_fit` with mismatching lengths (rejected), a `partial_fit`: the trace has three calls and
     the facade's policy holds the documented means -/
